@@ -27,6 +27,7 @@ structure Opts where
   term : Bool            -- IsTerminalError is set
   termAll : Bool         -- … and answers true for every error (constant-true predicate)
   termNR : Bool          -- … and is "not retryable": true for T and for the cancellation-class error C, false for E
+  termCanc : Bool        -- … and is true exactly for cancellation-class errors (C, failed awaitStart), false for E and T
   sorter : Option (List Nat)
   deriving Repr
 
@@ -47,7 +48,7 @@ def natOf (s : String) : Nat := s.toNat?.getD 0
 def parseOpts (s : String) : Option Opts :=
   match s.splitOn " " with
   | [k, m, h, t, z] =>
-    some { kind := (k.toList.head?).getD 'q', min := m == "m1", hedge := h != "h0", hedgeMs := (if h == "h1" then 2 else natOf (h.drop 1).toString), term := t != "t0", termAll := t == "t2", termNR := t == "t3"
+    some { kind := (k.toList.head?).getD 'q', min := m == "m1", hedge := h != "h0", hedgeMs := (if h == "h1" then 2 else natOf (h.drop 1).toString), term := t != "t0", termAll := t == "t2", termNR := t == "t3", termCanc := t == "t4"
            sorter := if z == "z-" then none else natList? (z.drop 1).toString }
   | _ => none
 
@@ -286,16 +287,24 @@ def showMain (off : Nat) : Main → Option String
 /-- result of a callback as the model sees it. The terminal-error predicate applies to errors only (a
 success is never terminal, whatever the predicate answers for a nil error); with the constant-true
 predicate (`termAll`) every error is terminal. -/
-def resOf (extraTerm : Char → Bool) (ch : Char) : Res :=
-  if ch == 'S' || ch == 's' then .ok else if ch == 'T' || extraTerm ch then .term else .err
+def resOf (isTerm : Char → Bool) (ch : Char) : Res :=
+  if ch == 'S' || ch == 's' then .ok else if isTerm ch then .term else .err
 
-/-- errors other than T for which the predicate of the case answers true: every error with the
-constant-true predicate, the cancellation-class error C with the "not retryable" predicate. -/
-def extraTermOf (o : Opts) (ch : Char) : Bool := o.termAll || (o.termNR && ch == 'C')
+/-- the errors for which the predicate of the case answers true: T only (t1; also used without a
+predicate, where the model ignores it); every error (t2, constant true); T and the cancellation-class
+error C (t3, "not retryable"); C only (t4, "cancelled"). -/
+def extraTermOf (o : Opts) (ch : Char) : Bool :=
+  if o.termAll then ch == 'E' || ch == 'T' || ch == 'C'
+  else if o.termNR then ch == 'T' || ch == 'C'
+  else if o.termCanc then ch == 'C'
+  else ch == 'T'
+
+/-- what the predicate of the case answers for the cancellation-class error posted by a goroutine whose
+`awaitStart` failed. -/
+def abortTermOf (o : Opts) : Bool := o.term && (o.termAll || o.termNR || o.termCanc)
 
 /-- is an arrival with this outcome a terminal error for the predicate of the case? -/
-def isTerminalCh (o : Opts) (ch : Char) : Bool :=
-  o.term && (ch == 'T' || ((ch == 'E' || ch == 'C') && extraTermOf o ch))
+def isTerminalCh (o : Opts) (ch : Char) : Bool := o.term && extraTermOf o ch
 
 /-- "a3E" → (3, 'E') -/
 def parseArrival (a : String) : Option (Nat × Char) :=
@@ -309,26 +318,26 @@ def parseArrival (a : String) : Option (Nat × Char) :=
 def stOne (c : Cfg) (s : St) (k : MoveKind) (e : Ev) : List (MoveKind × St) :=
   match step c s e with | some s' => [(k, s')] | none => []
 
-def stMoves (c : Cfg) (s : St) : List (MoveKind × St) :=
+def stMoves (c : Cfg) (abT : Bool) (s : St) : List (MoveKind × St) :=
   let one := stOne c s
   one .plain .ctxDone ++ one .plain .recv ++ one .plain .drain ++
   (List.range c.n).flatMap (fun i => one (.begin i) (.begin i)) ++
-  (List.range c.n).flatMap (fun i => one .plain (.abort i)) ++
+  (List.range c.n).flatMap (fun i => one .plain (.abort i abT)) ++
   (if s.pending.isEmpty then [] else one (.tick 0) .tick)
 
 /-- order used while an observed start still has to be released: ticks, then the main loop counting
 results (a failure releases), then goroutines giving up (their errors count as failures), and the
 main loop noticing its done context last. -/
-def stMovesRel (c : Cfg) (s : St) : List (MoveKind × St) :=
+def stMovesRel (c : Cfg) (abT : Bool) (s : St) : List (MoveKind × St) :=
   let one := stOne c s
   (if s.pending.isEmpty then [] else one (.tick 0) .tick) ++ one .plain .recv ++
   (List.range c.n).flatMap (fun i => one (.begin i) (.begin i)) ++
-  (List.range c.n).flatMap (fun i => one .plain (.abort i)) ++
+  (List.range c.n).flatMap (fun i => one .plain (.abort i abT)) ++
   one .plain .drain ++ one .plain .ctxDone
 
-def singleSys (c : Cfg) (extraTerm : Char → Bool) : Sys St :=
-  { moves := stMoves c
-    movesRel := stMovesRel c
+def singleSys (c : Cfg) (extraTerm : Char → Bool) (abT : Bool) : Sys St :=
+  { moves := stMoves c abT
+    movesRel := stMovesRel c abT
     lateStarts := c.hedging
     commit := fun _ _ => none
     delta := fun s s' => { starts := s'.started.drop s.started.length, cleans := s'.cleaned.drop s.cleaned.length
@@ -346,7 +355,7 @@ def singleSys (c : Cfg) (extraTerm : Char → Bool) : Sys St :=
 
 /-! ### the multi-set system -/
 
-def multiMoves (cs : List Cfg) (off : Nat → Nat) (rel : Bool) (m : MSt) : List (MoveKind × MSt) :=
+def multiMoves (cs : List Cfg) (off : Nat → Nat) (abT : Bool) (rel : Bool) (m : MSt) : List (MoveKind × MSt) :=
   let one (k : MoveKind) (e : MEv) : List (MoveKind × MSt) := match mstep cs m e with | some m' => [(k, m')] | none => []
   let ks := List.range cs.length
   let ticks := ks.flatMap (fun k => if (m.sets k).pending.isEmpty then [] else one (.tick k) (.set k .tick))
@@ -354,7 +363,7 @@ def multiMoves (cs : List Cfg) (off : Nat → Nat) (rel : Bool) (m : MSt) : List
     | some c => (List.range c.n).flatMap (fun i => one (.begin (off k + i)) (.set k (.begin i)))
     | none => [])
   let aborts := ks.flatMap (fun k => match cs[k]? with
-    | some c => (List.range c.n).flatMap (fun i => one .plain (.set k (.abort i)))
+    | some c => (List.range c.n).flatMap (fun i => one .plain (.set k (.abort i abT)))
     | none => [])
   let joins := ks.flatMap (fun k => one .plain (.join k)) ++ one .plain .ret
   if rel then
@@ -366,11 +375,11 @@ def multiMoves (cs : List Cfg) (off : Nat → Nat) (rel : Bool) (m : MSt) : List
 
 def sortNat (l : List Nat) : List Nat := (l.toArray.qsort (· < ·)).toList
 
-def multiSys (sets : List SetD) (cs : List Cfg) (extraTerm : Char → Bool) : Sys MSt :=
+def multiSys (sets : List SetD) (cs : List Cfg) (extraTerm : Char → Bool) (abT : Bool) : Sys MSt :=
   let offs := offsets sets
   let off (k : Nat) : Nat := offs.getD k 0
-  { moves := multiMoves cs off false
-    movesRel := multiMoves cs off true
+  { moves := multiMoves cs off abT false
+    movesRel := multiMoves cs off abT true
     lateStarts := cs.any (·.hedging)
     commit := fun m m' => match m.retErr, m'.retErr with
       | none, some (k, e) => some (showErr (off k) e)
@@ -500,6 +509,20 @@ def setFailuresExceeded (sets : List SetD) (k : Nat) (arr : List Arr) : Bool :=
     if isZoneMode s then (dedup (failing.map (zoneOfG sets))).length > s.maxUnz
     else failing.length > s.maxErr
 
+/-- the predicate is applied to every error the loop receives: if it holds for cancellation-class
+errors, a not yet started zone-mate of a failed instance (its zone's contexts get cancelled) posts a
+terminal error. The driver cannot produce this (zone-mates start together), but it is a terminal
+error, so an error return is then allowed (never demanded). -/
+def abortTerminalPossible (o : Opts) (sets : List SetD) (wins : List Win) (w : Nat) : Bool :=
+  let arr := arrivalsUpTo wins w
+  abortTermOf o && (List.range sets.length).any fun k =>
+    match sets[k]? with
+    | some s => isZoneMode s &&
+      let startedSoFar := (wins.take (w + 1)).flatMap (·.starts)
+      (relevantArrivals sets k arr).any fun a => isFail a.ch &&
+        (members sets k).any fun g => zoneOfG sets g == zoneOfG sets a.g && !startedSoFar.contains g
+    | none => false
+
 def errorDue (o : Opts) (sets : List SetD) (wins : List Win) (w : Nat) : Bool :=
   let arr := arrivalsUpTo wins w
   cancelledBy wins w ||
@@ -550,7 +573,7 @@ def judge (o : Opts) (sets : List SetD) (wins : List Win) : List String := Id.ru
       for k in List.range sets.length do
         bad := (quorumReasons sets k returned okBefore).map (fun x => if isDo && x == "result-from-unsuccessful-zone" then "do-" ++ x else x) ++ bad
     else
-      if !errorDue o sets wins ri then bad := "error-not-due" :: bad
+      if !(errorDue o sets wins ri || abortTerminalPossible o sets wins ri) then bad := "error-not-due" :: bad
     -- contexts of calls whose result is not used are cancelled, from the return on
     for (w, i) in wins.zipIdx do
       if i ≥ ri then
@@ -654,7 +677,7 @@ def tagsOf (o : Opts) (sets : List SetD) (script : String) (wins : List Win) (du
     | none => 0
   let ticks := (wins.filter (·.act == "w")).length
   let triv := if retAt == "init" && !canc then " trivial" else ""
-  s!"k={o.kind} dupaddr={dup} mode={mode} n={min n 6} sets={sets.length} min={o.min} hedge={o.hedge} delay={o.hedgeMs} term={o.term} termall={o.termAll} termnr={o.termNR} kcancel={wins.any (·.kcancel)} sorter={o.sorter.isSome} ret={ret} fails={min nf 3} cancel={canc} late={min late 2} waits={min ticks 2}{triv}"
+  s!"k={o.kind} dupaddr={dup} mode={mode} n={min n 6} sets={sets.length} min={o.min} hedge={o.hedge} delay={o.hedgeMs} term={o.term} termall={o.termAll} termnr={o.termNR} termcanc={o.termCanc} kcancel={wins.any (·.kcancel)} sorter={o.sorter.isSome} ret={ret} fails={min nf 3} cancel={canc} late={min late 2} waits={min ticks 2}{triv}"
 
 def handleQ (f : List String) : String × String × String :=
   match f with
@@ -689,7 +712,7 @@ def handleQ (f : List String) : String × String × String :=
             let cs := ss.map (toCfg o)
             let orders := (ss.zipIdx).map fun (s, k) => inferOrder o (toCfg o s) (localStarts ss k w0.starts) (localStarts ss k later)
             let m0 := minit cs orders pre
-            accept (multiSys ss cs (extraTermOf o)) m0 wins
+            accept (multiSys ss cs (extraTermOf o) (abortTermOf o)) m0 wins
           else
             match ss with
             | [s] =>
@@ -698,7 +721,7 @@ def handleQ (f : List String) : String × String × String :=
               let s0 := init c order pre
               let w0' := { w0 with ret := if s0.main = .running then w0.ret else (if showMain 0 s0.main == w0.ret then none else some "mismatch")
                                    cleans := w0.cleans }
-              accept (singleSys c (extraTermOf o)) s0 (w0' :: wins.drop 1)
+              accept (singleSys c (extraTermOf o) (abortTermOf o)) s0 (w0' :: wins.drop 1)
             | _ => "bad-sets"
         -- the search giving up is not a verdict: no diff, but visible in the tags (and the evidence)
         if diff == "search-budget" then ("-", js, tags ++ " search=budget") else (diff, js, tags)
